@@ -169,7 +169,7 @@ impl<const N: usize> AEADCipherCodec<N> {
         }
         let eih_len = if require_eih { 16 } else { 0 };
         let header_len = eih_len + 1 + 8 + request_salt_len + 2 + tag_size;
-        if src.remaining() < header_len {
+        if src.remaining() < N + header_len {
             bail!("header too short, expecting {} bytes, but found {} bytes", header_len + N, src.remaining());
         }
         let mut salt = [0; N];
@@ -216,7 +216,13 @@ impl<const N: usize> AEADCipherCodec<N> {
             self.decoder = Some(decoder);
             if matches!(session.mode, Mode::Server) && session.address.is_none() {
                 session.address = Some(address::decode(&mut via)?);
+                if via.remaining() < 2 {
+                    bail!("request header too short: missing padding length");
+                }
                 let padding_len = via.get_u16();
+                if via.remaining() < padding_len as usize {
+                    bail!("request header too short: padding length {} exceeds {} remaining bytes", padding_len, via.remaining());
+                }
                 via.advance(padding_len as usize);
             }
             return Ok(Some(via));
